@@ -1201,6 +1201,30 @@ func (g *c11Gen) next() c11Op {
 			c11Op{Op: "verify", Node: other, Cred: &c, Down: []int{l.Node}},
 			c11Op{Op: "verify", Node: other, Cred: &c})
 		return c11Op{Op: "verify", Node: other, Cred: &c}
+	case k >= 84 && k < 87:
+		// hostile sequence (a status entry is honoured only from the list the credential itself names, and stays honoured):
+		// list V (valid, bit j set) is cached by a verification that answers revoked; then ANOTHER url A serves a validly
+		// signed list that claims to be V (credentialSubject.id = V) with the bit clear, and a credential naming A is verified
+		// (refused: wrong credential); the first credential, verified again within the cache lifetime, must still be revoked
+		// and the cached record of V must be unchanged
+		vi := r.Intn(len(c11Foreign))
+		urlV, urlA := c11Foreign[vi], c11Foreign[(vi+1+r.Intn(len(c11Foreign)-1))%len(c11Foreign)]
+		j := r.Intn(6)
+		signer := g.pick([]string{"did:web:evil.example", "did:web:example.com:iam:alice"})
+		mk := func(url, id string) *c11Cred {
+			return &c11Cred{ID: id, IssuerDID: "did:web:example.com:iam:alice",
+				Statuses: []c11Status{{Type: StatusList2021EntryType, Purpose: "revocation", List: c11URL{Node: -1, Raw: url}, Idx: strconv.Itoa(j)}}}
+		}
+		cV, cA := mk(urlV, "did:web:example.com:iam:alice#v"+strconv.Itoa(r.Intn(3))), mk(urlA, "did:web:example.com:iam:alice#a"+strconv.Itoa(r.Intn(3)))
+		vn := r.Intn(2)
+		g.pending = append(g.pending,
+			c11Op{Op: "verify", Node: vn, Cred: cV},
+			c11Op{Op: "host", Host: &c11Host{URL: urlA, Kind: "wrongsubject", Subject: c11URL{Node: -1, Raw: urlV}, Signer: signer, ExpIn: 86420, Bits: []int{(j + 1) % 6}}},
+			c11Op{Op: "verify", Node: vn, Cred: cA},
+			c11Op{Op: "verify", Node: vn, Cred: cV},
+			c11Op{Op: "record", Node: vn, List: &c11URL{Node: -1, Raw: urlV}},
+			c11Op{Op: "verify", Node: 1 - vn, Cred: cV})
+		return c11Op{Op: "host", Host: &c11Host{URL: urlV, Kind: "ok", Signer: signer, ExpIn: 86420, Bits: []int{j}}}
 	case k >= 81 && k < 84 && g.nticks <= 12:
 		// hostile sequence: an EXTERNAL list (with expirationDate far away, close, or WITHOUT one) is cached by a verification;
 		// its issuer then sets the bit; once the cache is older than maxAgeExternal the next verification must ask the host
